@@ -6,7 +6,7 @@ ID = "C03"
 THEOREMS = [("FlatModel.Props.C03", t) for t in ("FC.C03.rep_default", "FC.C03.rep_copy", "FC.C03.observers", "FC.C03.rep_clear",
                                                   "FC.C03.rep_extend", "FC.C03.rep_fromIter", "FC.C03.iter_spec")]
 LEAN_TARGETS = ["FlatModel.Generated.Covered"]
-PROFILES = {"quick": ["checked"], "thorough": ["checked", "wrapping"], "search": ["checked"]}
+PROFILES = {"quick": ["checked", "wrapping"], "thorough": ["checked", "wrapping"], "search": ["checked"]}
 RULE = ("histories of copy / extend / from_iter / clear / clone / reserve over every catalogued region x every admissible index "
         "container, observed through len, is_empty, get(i) for all i < len, get(len), get(len+1), get(usize::MAX), iteration with "
         "size hints and a cloned iterator; oracle = list of copied values; non-trivial when the stack holds >= 3 items and is "
